@@ -81,6 +81,9 @@ def main(args) -> int:
     only = os.environ.get("GEOSIM_MUTANTS")
     if only:
         entries = [e for e in entries if any(tok in e["name"] for tok in only.split(","))]
+    only_prop = os.environ.get("GEOSIM_PROP")
+    if only_prop:
+        entries = [e for e in entries if e["property"] == only_prop]
     results = []
     ok = True
     for e in entries:
